@@ -13,7 +13,7 @@ def struct_job(fam):
     return [{"module": "MC_Struct", "spec": "Spec", "invariants": ["InvStruct", "InvInjective", "InvInjectiveX"], "novectors": False,
              "constants": {"Fam": '"%s"' % fam},
              "quick": {"constants": {"Lens": "{0, 24, 255}", "BigLens": "{65535}"}, "timeout": 900},
-             "thorough": {"constants": {"Lens": "{0, 1, 23, 24, 255, 256}", "BigLens": "{65535, 65536}"}, "timeout": 9000},
+             "thorough": {"constants": {"Lens": "{0, 1, 23, 24, 255, 256}", "BigLens": "{65535, 65536}"}, "timeout": 3000},
              "rule": "(route through the API, body protected header [5 built, 5 decoded incl. non-canonical], signer protected header, "
                      "AAD length class, payload length class / absent) tuples; each state = one tuple executed as a session; all non-trivial; "
                      "plus implementation-level injectivity over every structure produced"}]
@@ -41,7 +41,7 @@ JOBS = {
         {"module": "MC_Nesting", "spec": "Spec", "invariants": ["InvRecipeParses", "InvReturns", "InvDeepAccepted", "Emit"],
          "constants": {"PropId": '"C01"', "SmallLimit": 40},
          "quick": {"constants": {"Reps": "{1, 2, 3, 8, 40, 256, 4096}", "MaxSteps": 1}, "timeout": 600},
-         "thorough": {"constants": {"Reps": "{1, 2, 3, 8, 40, 256, 4096, 65536}", "MaxSteps": 2}, "timeout": 9000}},
+         "thorough": {"constants": {"Reps": "{1, 2, 3, 8, 40, 256, 4096, 65536}", "MaxSteps": 2}, "timeout": 3000}},
         {"module": "MC_Machine", "spec": "Spec", "invariants": ["InvTotal", "InvDecodeOutcome", "InvOneItem", "InvReencode", "InvFixed", "Emit"],
          "quick": {"constants": {"MaxDepth": 3}, "timeout": 600},
          # depth 4 has > 10^7 states: breadth-first for 20 minutes (all of depth 3, then as much of depth 4 as fits)
@@ -51,11 +51,11 @@ JOBS = {
          "thorough": {"constants": {"MaxDepth": 30}, "simulate": 3000, "depth": 30, "timeout": 1200, "time_bounded": True}},
         {"kind": "cmd", "name": "fuzz", "cmd": ["fuzz", "--prop", "C01", "--seed", "{seed}", "--tier", "{tier}", "--summary", "{summary}",
                                                "--replay-dir", "{replays}"],
-         "quick": {"timeout": 1200}, "thorough": {"timeout": 9000}},
+         "quick": {"timeout": 1200}, "thorough": {"timeout": 3000}},
         # the other configuration of the quantifier: coset built WITH its `std` feature (every other job builds it without)
         {"kind": "cmd", "name": "fuzz-std", "features": "std",
          "cmd": ["fuzz", "--prop", "C01", "--seed", "{seed}", "--tier", "{tier}", "--summary", "{summary}", "--replay-dir", "{replays}"],
-         "quick": {"timeout": 1200}, "thorough": {"timeout": 9000}},
+         "quick": {"timeout": 1200}, "thorough": {"timeout": 3000}},
     ],
     "C07": [
         {"module": "MC_FixedPoint", "spec": "Spec", "invariants": ["InvAccepted", "InvFixedPoint", "InvF7", "Emit"],
@@ -74,7 +74,7 @@ JOBS = {
     "C11": [
         {"module": "MC_Encode", "spec": "Spec", "invariants": ["InvWFMem", "InvEncode", "InvDecodeBack", "Emit"],
          "quick": {"constants": {"Full": "FALSE"}, "timeout": 900},
-         "thorough": {"constants": {"Full": "TRUE"}, "timeout": 9000},
+         "thorough": {"constants": {"Full": "TRUE"}, "timeout": 3000},
          "rule": "well-formed in-memory values of 19 type classes over field palettes (headers: the product of per-field palettes; messages: "
                  "8 protected x 3 unprotected x payload x signature/recipient lists with nesting; keys, key sets, claims, party/supp-pub info, KDF "
                  "contexts, labels, timestamps); each state = one value; all non-trivial"},
@@ -82,14 +82,14 @@ JOBS = {
     "C20": [
         {"module": "MC_Canon", "spec": "Spec", "invariants": ["InvSorted", "InvPairs", "InvIdem", "InvStable", "InvSameKey", "InvF6Exact", "Emit"],
          "quick": {"constants": {"MaxExtras": 2}, "timeout": 900},
-         "thorough": {"constants": {"MaxExtras": 3}, "timeout": 9000},
+         "thorough": {"constants": {"MaxExtras": 3}, "timeout": 3000},
          "rule": "16 subsets of the typed fields x every arrangement of up to MaxExtras distinct extra labels out of 16 (0, 6, 23, 24, 255, 256, "
                  "-1, -2, -24, -25, -257, a, b, aa, 2^63-1, -2^63) x both orderings; each state = one key; non-trivial = at least two extras"},
     ],
     "C06": [
         {"module": "MC_RoundTrip", "spec": "Spec", "invariants": ["InvWireFaithful", "InvVerify", "InvSameBytes", "InvTryErr", "Emit"],
          "quick": {"constants": {"MaxCalls": 2}, "timeout": 900},
-         "thorough": {"constants": {"MaxCalls": 3}, "timeout": 9000},
+         "thorough": {"constants": {"MaxCalls": 3}, "timeout": 3000},
          "rule": "every lifecycle behaviour new -> up to MaxCalls builder calls (setters and create helpers in any order, closure result chosen by "
                  "the environment) -> build -> encode (tagged/untagged) -> decode -> one verify/decrypt call with equal or perturbed AAD / payload / "
                  "signer index, for the seven carriers; each complete behaviour = one session; non-trivial = contains a successful create call"},
@@ -107,7 +107,7 @@ JOBS = {
     "C19": [
         {"module": "MC_Builder", "spec": "Spec", "invariants": ["InvIvPiv", "InvBuiltProtNoOrig", "InvReserved", "InvFrame", "Emit"],
          "quick": {"constants": {"MaxLen": 2}, "timeout": 900},
-         "thorough": {"constants": {"MaxLen": 3}, "timeout": 9000},
+         "thorough": {"constants": {"MaxLen": 3}, "timeout": 3000},
          "rule": "every call sequence up to MaxLen over the method palette of each of the 14 builders (key: 6 constructors); each state = one "
                  "history, replayed from new() and built; non-trivial = at least one call"},
     ],
@@ -142,7 +142,7 @@ JOBS = {
     "C12": [
         {"module": "MC_Dup", "spec": "Spec", "invariants": ["InvDecode", "InvOnlyFault", "InvEncode", "InvMustFail", "Emit"],
          "quick": {"constants": {"MaxN": 3, "AllEnc": "FALSE"}, "timeout": 900},
-         "thorough": {"constants": {"MaxN": 4, "AllEnc": "TRUE"}, "timeout": 9000},
+         "thorough": {"constants": {"MaxN": 4, "AllEnc": "TRUE"}, "timeout": 3000},
          "rule": "decode: (map kind, duplicated label, map size, position pair, encoding pair of the two keys, nesting position) tuples, "
                  "each with the control input that drops the second occurrence; encode: in-memory headers/keys/claims sets whose extras "
                  "clash, in every holder; non-trivial = the input really carries a duplicate"},
@@ -150,31 +150,31 @@ JOBS = {
     "C10": [
         {"module": "MC_KeyDecode", "spec": "Spec", "invariants": MAP_INV + ["InvOpsOrder"],
          "quick": {"constants": {"MaxLen": 2, "MaxKeys": 3}, "timeout": 900},
-         "thorough": {"constants": {"MaxLen": 3, "MaxKeys": 4}, "timeout": 9000},
+         "thorough": {"constants": {"MaxLen": 3, "MaxKeys": 4}, "timeout": 3000},
          "rule": "every COSE_Key map over the entry palette up to MaxLen entries and every key set up to MaxKeys elements "
                  "(each state = one item); non-trivial = non-empty container"},
     ],
     "C18": [
         {"module": "MC_Cwt", "spec": "Spec", "invariants": MAP_INV + ["InvRoundTrip"],
          "quick": {"constants": {"MaxLen": 2}, "timeout": 900},
-         "thorough": {"constants": {"MaxLen": 3}, "timeout": 9000},
+         "thorough": {"constants": {"MaxLen": 3}, "timeout": 3000},
          "rule": "every claims map over the entry palette up to MaxLen entries; every KDF-context array up to arity MaxLen and "
                  "every PartyInfo / SuppPubInfo sub-array up to arity 4 over slot palettes; non-trivial = non-empty container"},
         {"module": "MC_Kdf", "spec": "Spec", "invariants": ["InvIff", "InvValue", "InvRoundTrip", "Emit"],
          "quick": {"constants": {"MaxLen": 5}, "timeout": 900},
-         "thorough": {"constants": {"MaxLen": 7}, "timeout": 9000}},
+         "thorough": {"constants": {"MaxLen": 7}, "timeout": 3000}},
     ],
     "C09": [
         {"module": "MC_MsgDecode", "spec": "Spec", "invariants": MSG_INV,
          "quick": {"constants": {"MaxLen": 6, "Wide": "FALSE"}, "timeout": 900},
-         "thorough": {"constants": {"MaxLen": 7, "Wide": "TRUE"}, "timeout": 9000},
+         "thorough": {"constants": {"MaxLen": 7, "Wide": "TRUE"}, "timeout": 3000},
          "rule": "every array of arity 0..MaxLen over per-position slot palettes (each state = one array), decoded as all "
                  "eight structure types by value API and two wire encodings; non-trivial = non-empty array"},
     ],
     "C08": [
         {"module": "MC_HeaderDecode", "spec": "Spec", "invariants": HDR_INV,
          "quick": {"constants": {"MaxLen": 2}, "timeout": 900},
-         "thorough": {"constants": {"MaxLen": 3}, "timeout": 9000},
+         "thorough": {"constants": {"MaxLen": 3}, "timeout": 3000},
          "rule": "every header map over the entry palette up to MaxLen entries (each state = one map), decoded "
                  "standalone / as unprotected header / inside a protected bstr, by value API and two wire encodings; "
                  "non-trivial = a map or array with at least one entry"},
@@ -189,7 +189,7 @@ for _p in ("C07", "C13"):
 
 def trace_job(fams):
     return {"kind": "trace", "name": "trace:" + "+".join(fams), "fams": fams,
-            "quick": {"sessions": 150, "timeout": 600}, "thorough": {"sessions": 4000, "timeout": 9000}}
+            "quick": {"sessions": 150, "timeout": 600}, "thorough": {"sessions": 4000, "timeout": 3000}}
 
 
 TRACE_FAMS = {
@@ -202,7 +202,7 @@ def nesting_job(pid):
     return {"module": "MC_Nesting", "spec": "Spec", "invariants": ["InvRecipeParses", "InvReturns", "InvDeepAccepted", "Emit"],
             "constants": {"PropId": '"%s"' % pid, "SmallLimit": 40},
             "quick": {"constants": {"Reps": "{1, 3, 17, 40}", "MaxSteps": 1}, "timeout": 600},
-            "thorough": {"constants": {"Reps": "{1, 3, 17, 40}", "MaxSteps": 2}, "timeout": 9000}}
+            "thorough": {"constants": {"Reps": "{1, 3, 17, 40}", "MaxSteps": 2}, "timeout": 3000}}
 
 
 for _p in ("C09", "C13"):
